@@ -1982,10 +1982,12 @@ where
         //
         // If this is our first connection to the network, we just ask for a fixed backlog
         // of messages to get us started.
+        // Nb. Timestamp subtraction saturates. The last gossip timestamp comes from
+        // announcements signed by other nodes, and may be smaller than the delta.
         let since = if let Some(last) = self.last_online_at {
-            Timestamp::from(last - SUBSCRIBE_BACKLOG_DELTA)
+            Timestamp::from(last) - SUBSCRIBE_BACKLOG_DELTA.as_millis() as u64
         } else {
-            (*now - INITIAL_SUBSCRIBE_BACKLOG_DELTA).into()
+            Timestamp::from(*now) - INITIAL_SUBSCRIBE_BACKLOG_DELTA.as_millis() as u64
         };
         debug!(target: "service", "Subscribing to messages since timestamp {since}..");
 
